@@ -296,10 +296,10 @@ func TestEmission(t *testing.T) {
 // 3. enforcement
 
 type enforceCase struct {
-	Request bool   `json:"request"`
+	Request bool     `json:"request"`
 	Body    spec.Hex `json:"body"`    // frame without trailer
-	Trailer uint16 `json:"trailer"` // as two bytes lo,hi: lo = Trailer&0xff
-	Source  string `json:"source"`
+	Trailer uint16   `json:"trailer"` // as two bytes lo,hi: lo = Trailer&0xff
+	Source  string   `json:"source"`
 }
 
 func sameParse(v1 interface{}, e1 error, v2 interface{}, e2 error) bool {
